@@ -289,8 +289,7 @@ structure Flags where
   polyDistZ : ZSrc
   /-- `PolygonalRegion.AABB` puts `self.z` in both corners -/
   polyAABBZ : ZSrc
-  /-- `PolygonalRegion.containsRegionInner` compares heights before the planar test (it does not
-      at the pinned commit: finding `containsRegion:height-ignored`) -/
+  /-- `PolygonalRegion.containsRegionInner` compares heights before the planar test (since 8459a79f) -/
   polyContainsRegionChecksZ : Bool
   /-- `CircularRegion.containsPoint` refuses `point.z != self.z` -/
   discContainsChecksZ : Bool
@@ -304,6 +303,10 @@ structure Flags where
   projectAxis1 : Bool
   /-- `regionFromShapelyObject` passes its `z` to `PolygonalRegion` -/
   fromShapelyPassesZ : Bool
+  /-- `IntersectionRegion / UnionRegion / DifferenceRegion` define `_trueContainsPoint` structurally
+      (`all / any / and-not` of the parts' `_trueContainsPoint`); otherwise they inherit
+      `Region._trueContainsPoint = containsPoint`, which has footprint semantics -/
+  compTrueStructural : Bool
 deriving Repr, DecidableEq
 
 /-! ## code model: point predicates -/
@@ -343,19 +346,27 @@ def containsFoot (F : Flags) : Reg → Pt → Bool
   | r, p => containsPrim F r p
 end
 
-/-- `_trueContainsPoint`: overridden by `PolygonalRegion` only -/
+/-- `_trueContainsPoint`: overridden by `PolygonalRegion`, and (flag `compTrueStructural`) by the composite
+    regions; everything else inherits `Region._trueContainsPoint = containsPoint` -/
 def trueContains (F : Flags) : Reg → Pt → Bool
   | .planar z s, p => (!F.polyTrueChecksZ || decide (p.z = z)) && s.mem p.xy
   | .disc z c r, p => (!F.polyTrueChecksZ || decide (p.z = z)) && containsPrim F (.disc z c r) p
   | .lzy r, p => trueContains F r p
+  | .inter a b, p =>
+      if F.compTrueStructural then trueContains F a p && trueContains F b p else containsPoint F (.inter a b) p
+  | .union a b, p =>
+      if F.compTrueStructural then trueContains F a p || trueContains F b p else containsPoint F (.union a b) p
+  | .diff a b, p =>
+      if F.compTrueStructural then trueContains F a p && !trueContains F b p else containsPoint F (.diff a b) p
   | r, p => containsPoint F r p
 
-/-- membership as the generic samplers realise it: `_trueContainsPoint` of every part -/
+/-- membership as the generic samplers of the composite regions realise it: `_trueContainsPoint` of the
+    *immediate* parts (`all(region._trueContainsPoint(point) for region in regs)`, …) -/
 def memCode (F : Flags) : Reg → Pt → Bool
   | .lzy r, p => memCode F r p
-  | .inter a b, p => memCode F a p && memCode F b p
-  | .union a b, p => memCode F a p || memCode F b p
-  | .diff a b, p => memCode F a p && !memCode F b p
+  | .inter a b, p => trueContains F a p && trueContains F b p
+  | .union a b, p => trueContains F a p || trueContains F b p
+  | .diff a b, p => trueContains F a p && !trueContains F b p
   | r, p => trueContains F r p
 
 /-! ## code model: distance -/
